@@ -91,7 +91,7 @@ CLAIMS = {
             '3 C14'),
     'C15': ('operand-mode table vs specification (RF17), call-family coverage (RF7b) and operand classification (RF19c), memory-operand '
             'decision tables (RF19, RF19e), register-required operands (RF19d), register look-up rule (RF16h), output-capable operand modes (RF81), '
-            'null-then-dereference in the validator (RF67), operand-count exemptions (RF94), repeated-name check dominates every return of create_func_reg (RF102), operands exempt from validation and callee kind (RF134), mode comparison table (RF145), per-instruction checks per opcode and operand count (RF154), validation exemptions evaluated under every operand mode (RF134), expected modes of switch (RF169), every diagnostic leaves the context without an open function (RF184), property operand checked at creation (RF195)',
+            'null-then-dereference in the validator (RF67), operand-count exemptions (RF94), repeated-name check dominates every return of create_func_reg (RF102), operands exempt from validation and callee kind (RF134), mode comparison table (RF145), per-instruction checks per opcode and operand count (RF154), validation exemptions evaluated under every operand mode (RF134), expected modes of switch (RF169), every diagnostic leaves the context without an open function (RF184), property operand checked at creation (RF195), documented undefined-type va_list memory accepted (RF201)',
             'Decides the static table that the run-time validator consults, row by row against the documented grammar, and that error '
             'branches call the error function with a specific code.', '3 C15'),
     'C16': ('duplicate/restore protocol on every generation path (RF16a/b/i), scratch use of insn data scrubbed (RF16j), no instruction write '
